@@ -34,7 +34,7 @@ StoreActs == {"init", "assign", "remove", "query", "assignself", "clearbelow", "
 Step(ev) ==
   LET a == ev.a g == ev.arg IN
   CASE a = "init"       -> Reset(ev)
-    [] a = "assign"     -> Keep /\ Assign(g.via, PathOf(g.path, g.sep), g.val, g.sep)
+    [] a = "assign"     -> Keep /\ Assign(g.via, PathOf(UpTo(g.path, g.end), g.sep), g.val, g.sep, g.end)
     [] a = "remove"     -> Keep /\ Remove(g.via, PathOf(g.path, g.sep), g.sep)
     [] a = "query"      -> Keep /\ Query(g.via, PathOf(g.path, g.sep), g.sep)
     [] a = "assignself" -> Keep /\ AssignSelf(g.val)
